@@ -8,13 +8,19 @@ verified checkers of coq/Corr/BneckCorr.v accept them (or the case is `skip`), t
 search runs and its value is compared with the float returned by persim.bottleneck (exactly in the
 exact family, within a stated tolerance in the tolerance family).
 
+Inputs beyond plain value classes: `degenerate` (every pairing of the ways a side can be or become empty -
+genuinely empty, only infinite points, infinite + diagonal points, ...), per-side containers / dtypes / layouts
+(REPS, _arr), integer grids in the narrowest integer dtype, a few diagrams of 17-41 points, and call histories
+(harness/history.py: `impl_call`, `_histories`): several calls in one interpreter on shared argument objects,
+each judged by the same predicate and the same model run.
+
 Also exported for C06 (assembled by the integrator):
   bneck_cert_ok(S, T, dist, rows, tol=0) -> (ok, detail)   the certificate predicate in pure Python
   coq_cert_term(case, dist, rows, tol)                     the Coq term `bneck_cert_case ...` (bool)
 """
 from fractions import Fraction as Fr
 
-from .. import core
+from .. import core, history
 
 PID = "C01"
 THEOREMS = [
@@ -26,24 +32,39 @@ THEOREMS = [
 ]
 RULE = ("seeded generator; exact family: coordinates (k/4)*2^s, k in [-8,24], one scale s per case "
         "(|s| <= 3, or +-20 in class scale), sizes 0-6 per side (quick; a few up to 10) / up to 20 (thorough), "
-        "classes {generic, empty_side, both_empty, repeated, diagonal, ties, inf, scale, permuted, big}; "
-        "tolerance family (class tol): random doubles; every batch under PYTHONHASHSEED 0,1,2. "
+        "classes {generic, empty_side, both_empty, repeated, diagonal, ties, inf, scale, near_tie, repaired, straddle, "
+        "permuted, big, offset (grid shifted by +-sc*2^10..2^30, short bars), intgrid (integer coordinates as arrays of the "
+        "narrowest signed / unsigned integer dtype), large (4 quick / 30 thorough cases with 17, 23, 33 or 41 points on a side), "
+        "degenerate (each side one of {empty, one infinite point, several infinite points, infinite + diagonal points, "
+        "infinite + finite points, finite points, diagonal points}: every ordered pair of kinds once per quick run, "
+        "12 times per thorough run, plus random pairs)}; "
+        "tolerance family (classes tol, decimal, tol_mag = scales 1e-8..1e-10 and short bars on offsets 1e3..1e6): random doubles; "
+        "about a third of the cases hand each side over in its own representation out of {float64 array, list of lists, "
+        "tuple of tuples, list of row arrays, float32, narrowest int, narrowest uint, Fortran order, strided view, "
+        "read-only array} (a representation that cannot hold the values exactly falls back to float64); "
+        "call histories (harness/history.py; 16 quick / 150 thorough, 5-7 calls each in one interpreter, equal-valued "
+        "diagrams being the same objects in every call): pairwise distances over a pool of 3-5 diagrams incl. a diagram "
+        "against itself, one pair called repeatedly and exchanged, a malformed call (ragged / 1-d / text / None argument) "
+        "between clean calls - every call must satisfy the predicate; every batch under PYTHONHASHSEED 0,1,2. "
         "A case is non-trivial when the matching returned by the implementation uses both a cross pairing "
         "and a diagonal pairing, or two candidate costs (pair or diagonal) are equal, or an empty-diagram / "
-        "infinite-death branch is exercised; distinct = distinct JSON input")
+        "infinite-death branch is exercised; a history when at least two of its calls are; distinct = distinct JSON input")
 TRUSTED_BASE = [
     "Coq 8.16.1 kernel, vm_compute (no native_compute); all C01 theorems are closed under the global context",
     "hand-written model Model/BneckM.v of bottleneck.py lines 50-135",
     "hypothesis on external code: HopcroftKarp(graph).maximum_matching() returns a maximum matching "
     "(monitored on every real call by patching persim.bottleneck.HopcroftKarp)",
     "harness: generator, float->exact-rational printer, certificate search (only checked certificates are used), "
-    "verdict parser; the independent Python predicate (brute force / threshold + augmenting paths)",
+    "verdict parser; the independent Python predicate (brute force / threshold + augmenting paths); "
+    "call histories (harness/history.py): each call judged by the same predicate and the same model run, nothing recorded",
 ]
 ASSUMPTIONS = [
     "numpy semantics of isfinite masking, abs, maximum, fill_diagonal, unique, sort are as modelled",
     "exact family: every float operation of the code is exact on the dyadic grid, so the float equals the model's rational",
     "tolerance family: one rounding per matrix entry, bounded by 2^-50 * max|coordinate| (not proved)",
     "diagrams have birth <= death (the property speaks of persistence diagrams)",
+    "numpy converts float32 / integer arrays, tuples, row lists and non-contiguous / read-only arrays to float64 "
+    "without changing a value (the representations are only used when they hold the coordinates exactly)",
 ]
 HASHSEEDS = ["0", "1", "2"]
 HASHSEEDS_THOROUGH = ["0", "1", "2", "3", "7", "11", "42", "1234"]
@@ -62,7 +83,7 @@ def _dgm(rng, n, sc, **kw):
     return [_pt(rng, sc, **kw) for _ in range(n)]
 
 
-def _gen_case(rng, cls, maxn):
+def _gen_case(rng, cls, maxn, sides=False):
     sc = 2.0 ** rng.randint(-3, 3)
     m, n = rng.randint(0, maxn), rng.randint(0, maxn)
     fam = "exact"
@@ -160,33 +181,191 @@ def _gen_case(rng, cls, maxn):
         S, T = [rp() for _ in range(m)], [rp() for _ in range(n)]
         if rng.random() < 0.2:
             T.append([rng.uniform(-1, 1) * s, "inf"])
+    elif cls == "degenerate":
+        # every way a side can be (or become) empty, against every other: see SIDE_KINDS
+        S, T = _side(rng, rng.choice(SIDE_KINDS), sc), _side(rng, rng.choice(SIDE_KINDS), sc)
+    elif cls == "intgrid":
+        # integer coordinates handed over as integer arrays of the narrowest signed / unsigned dtype
+        lo, hi = rng.choice([(0, 255), (0, 255), (-128, 127), (0, 60000), (-30000, 30000), (0, 12)])
+
+        def ipt():
+            b = rng.randint(lo, hi)
+            return [float(b), float(rng.randint(b, min(hi, b + rng.choice([3, hi - lo]))))]
+        S, T = [ipt() for _ in range(max(1, m))], [ipt() for _ in range(n)]
+        if rng.random() < 0.3:
+            T.insert(rng.randint(0, len(T)), list(rng.choice(S)))
+        if rng.random() < 0.5:
+            S, T = T, S
+        c = _finish(rng, {"cls": cls, "family": "exact", "S": S, "T": T}, False)
+        r = rng.choice(["uint", "int"])
+        c["repS"], c["repT"] = r, (r if rng.random() < 0.7 else rng.choice(["uint", "int", "array", "list"]))
+        return c
+    elif cls == "offset":
+        # short bars far from the origin: grid points shifted by sc * 2^e (still exact in binary64)
+        off = sc * 2.0 ** rng.choice([10, 16, 20, 30]) * rng.choice([1, 1, -1])
+        S, T = _dgm(rng, max(1, m), sc, maxlen=4), _dgm(rng, n, sc, maxlen=4)
+        S = [[b + off, d + off] for b, d in S]
+        T = [[b + off, d + off] for b, d in T]
+    elif cls == "tol_mag":
+        # tolerance family at the magnitudes the plain class does not reach: tiny scales, and
+        # short bars on a large offset
+        fam = "tol"
+        if rng.random() < 0.5:
+            s, off = rng.choice([1e-8, 1e-9, 1e-10]), 0.0
+        else:
+            s, off = 1.0, rng.choice([1e3, 1e4, 1e5, 1e6])
+
+        def rq():
+            b = off + rng.uniform(0, 4) * s
+            return [b, b + rng.choice([rng.uniform(0, 2), rng.uniform(0, 0.02), 0.0]) * s]
+        S, T = [rq() for _ in range(max(1, m))], [rq() for _ in range(n)]
     else:
         raise ValueError(cls)
-    return {"cls": cls, "family": fam, "S": S, "T": T, "rep": rng.choice(["array", "array", "list"])}
+    return _finish(rng, {"cls": cls, "family": fam, "S": S, "T": T}, sides)
+
+
+# How one argument can be empty, become empty, or be as good as empty.  "inf*" kinds are emptied by
+# the filter on non-finite deaths only (an H0 diagram of a connected space is [[0, inf]]).
+SIDE_KINDS = ["empty", "inf1", "infk", "inf_diag", "inf_fin", "fin", "diag"]
+
+
+def _side(rng, kind, sc):
+    def ip():
+        return [sc * rng.randint(-8, 24) / 4.0, "inf"]
+    if kind == "empty":
+        return []
+    if kind == "inf1":
+        return [ip()]
+    if kind == "infk":
+        return [ip() for _ in range(rng.randint(2, 4))]
+    if kind == "inf_diag":
+        P = [ip() for _ in range(rng.randint(1, 2))] + [_pt(rng, sc, diag=True) for _ in range(rng.randint(1, 2))]
+    elif kind == "inf_fin":
+        P = [ip() for _ in range(rng.randint(1, 2))] + _dgm(rng, rng.randint(1, 3), sc)
+    elif kind == "fin":
+        return _dgm(rng, rng.randint(1, 3), sc)
+    elif kind == "diag":
+        return [_pt(rng, sc, diag=True) for _ in range(rng.randint(1, 2))]
+    else:
+        raise ValueError(kind)
+    rng.shuffle(P)
+    return P
+
+
+# Containers / dtypes / memory layouts in which a diagram is handed over (see _arr).  A representation
+# that cannot hold the values exactly (int for non-integers, f32 for wide mantissas) falls back to "array".
+REPS = ["array", "list", "tuple", "rows", "f32", "int", "uint", "fortran", "view", "readonly"]
+
+
+def _finish(rng, c, sides=True):
+    # one representation for both sides (the stream C06 shares), or - C01's own cases - one per side
+    c["rep"] = rng.choice(["array", "array", "list"])
+    if sides and rng.random() < 0.35:
+        c["repS"], c["repT"] = rng.choice(REPS), rng.choice(REPS)
+    return c
 
 
 CLASSES = ["generic", "generic", "generic", "empty_side", "both_empty", "repeated", "repeated", "diagonal",
            "diagonal", "ties", "ties", "ties", "inf", "inf", "scale", "scale", "near_tie", "near_tie", "repaired", "repaired", "straddle", "decimal", "decimal", "decimal", "decimal", "decimal", "permuted", "big", "tol", "tol", "tol"]
 
 
+# CLASSES is also the stream C06 draws from; the classes below are C01's own
+CLASSES_C01 = CLASSES + ["degenerate", "degenerate", "degenerate", "offset", "offset", "tol_mag", "tol_mag",
+                         "intgrid", "intgrid", "intgrid"]
+LARGE_SIZES = [17, 23, 33, 41]      # just above 16 / 32 (nothing in the code is blocked; a threshold would be new)
+
+
+def _degenerate_grid(rng, reps):
+    # every ordered pair of side kinds, `reps` times
+    out = []
+    for _ in range(reps):
+        for ks in SIDE_KINDS:
+            for kt in SIDE_KINDS:
+                sc = 2.0 ** rng.randint(-3, 3)
+                c = _finish(rng, {"cls": "degenerate", "family": "exact", "S": _side(rng, ks, sc), "T": _side(rng, kt, sc)})
+                out.append(c)
+    return out
+
+
+def _large(rng, n):
+    out = []
+    for _ in range(n):
+        sc = 2.0 ** rng.randint(-3, 3)
+        m, k = rng.choice(LARGE_SIZES), rng.choice(LARGE_SIZES + [3, 9])
+        S, T = _dgm(rng, m, sc, krange=(-40, 120), maxlen=40), _dgm(rng, k, sc, krange=(-40, 120), maxlen=40)
+        if rng.random() < 0.5:
+            S, T = T, S
+        out.append(_finish(rng, {"cls": "large", "family": "exact", "S": S, "T": T}))
+    return out
+
+
+def _hist_step(rng, S, T, fam="exact", rep=None):
+    return {"cls": "step", "family": fam, "S": S, "T": T, "rep": rep or "array"}
+
+
+def _histories(rng, n):
+    """Call histories (harness/history.py): all calls of one history run in one interpreter and equal-valued
+    diagrams of different calls are the same objects.
+      pairwise : a pool of 3-5 diagrams (among them all-infinite, empty and ordinary ones), distances between
+                 ordered pairs of the pool, including a diagram against itself (both arguments one object)
+      repeat   : one pair called again and again, then with the arguments exchanged
+      fault    : a call with a malformed argument (ragged rows / one-dimensional / text) between clean calls
+                 on the same objects"""
+    hs = []
+    for _ in range(n):
+        kind = rng.choice(["pairwise", "pairwise", "repeat", "fault"])
+        sc = 2.0 ** rng.randint(-3, 3)
+        pool = [_side(rng, rng.choice(SIDE_KINDS), sc) for _ in range(rng.randint(2, 3))]
+        pool += [_dgm(rng, rng.randint(1, 4), sc) for _ in range(rng.randint(1, 2))]
+        rng.shuffle(pool)
+        reps = [rng.choice(REPS) for _ in pool]
+
+        def st(i, j):
+            c = _hist_step(rng, pool[i], pool[j])
+            c["repS"], c["repT"] = reps[i], reps[j]
+            return c
+        k = len(pool)
+        if kind == "pairwise":
+            pairs = [(i, j) for i in range(k) for j in range(k)]
+            rng.shuffle(pairs)
+            steps = [st(i, j) for i, j in pairs[:6]]
+            i = rng.randrange(k)
+            steps.insert(rng.randint(1, len(steps)), st(i, i))
+        elif kind == "repeat":
+            i, j = rng.randrange(k), rng.randrange(k)
+            steps = [st(i, j), st(i, j), st(j, i), st(i, j), st(rng.randrange(k), j)]
+        else:
+            i, j = rng.randrange(k), rng.randrange(k)
+            bad = rng.choice([[[0.0, 1.0], [2.0]], [0.0, 1.0, 2.0], [["a", "b"]], [[0.0, 1.0, 2.0, 3.0]], None])
+            f = {"cls": "step", "fault": True, "family": "exact", "S": pool[i], "T": pool[j], "repS": reps[i], "repT": reps[j]}
+            f["raw" + rng.choice("ST")] = bad
+            steps = [st(i, j), f, st(i, j), st(j, i), st(rng.randrange(k), rng.randrange(k))]
+        hs.append(history.make(kind, steps))
+    return hs
+
+
 def generate(rng, tier):
     n_cases, maxn = (280, 6) if tier == "quick" else (2800, 16)
     cases = []
     for _ in range(n_cases):
-        cls = rng.choice(CLASSES)
+        cls = rng.choice(CLASSES_C01)
         mx = maxn
         if tier != "quick" and rng.random() < 0.7:
             mx = 7          # most thorough cases stay small: ties and empty sides live there
-        cases.append(_gen_case(rng, cls, mx))
+        cases.append(_gen_case(rng, cls, mx, sides=True))
     # decimal-grid pairs are cheap (1-3 points): a dedicated block, because a wrong rounding
     # direction shows on only a few percent of them
     for _ in range(150 if tier == "quick" else 2000):
-        cases.append(_gen_case(rng, "decimal", 3))
+        cases.append(_gen_case(rng, "decimal", 3, sides=True))
+    quick = tier == "quick"
+    cases += _degenerate_grid(rng, 1 if quick else 12)
+    cases += _large(rng, 4 if quick else 30)
+    cases += _histories(rng, 16 if quick else 150)
     return cases
 
 
 def search_generate(rng, n):
-    return [_gen_case(rng, rng.choice(CLASSES), rng.choice([2, 3, 4, 6])) for _ in range(n)]
+    return [_gen_case(rng, rng.choice(CLASSES_C01), rng.choice([2, 3, 4, 6]), sides=True) for _ in range(n)]
 
 
 def corpus():
@@ -348,11 +527,41 @@ def _has_inf(P):
 # ------------------------------------------------------------------------------ implementation
 
 def _arr(P, rep):
+    """The diagram P in the requested container / dtype / memory layout (REPS).  Values are never changed:
+    a representation that cannot hold them exactly falls back to a float64 array."""
     import numpy as np
     rows = [[float(b), float("inf") if d == "inf" else float(d)] for b, d in P]
     if rep == "list":
         return rows
-    return np.array(rows, dtype=float).reshape(-1, 2)
+    if rep == "tuple":
+        return tuple(tuple(r) for r in rows)
+    if rep == "rows":
+        return [np.array(r, dtype=float) for r in rows]
+    A = np.array(rows, dtype=float).reshape(-1, 2)
+    fin = A[np.isfinite(A)]
+    if rep == "f32":
+        if (fin.astype(np.float32).astype(float) == fin).all():
+            return A.astype(np.float32)
+    elif rep in ("int", "uint"):
+        if fin.size == A.size and (fin == np.round(fin)).all() and (np.abs(fin) < 2.0 ** 52).all():
+            # the narrowest dtype that holds the values: where differences wrap / overflow first
+            lo, hi = (fin.min(), fin.max()) if fin.size else (0, 0)
+            if rep == "int":
+                for bits, dt in ((7, np.int8), (15, np.int16), (31, np.int32)):
+                    if -2 ** bits <= lo and hi < 2 ** bits:
+                        return A.astype(dt)
+                return A.astype(np.int64)
+            if lo >= 0:
+                return A.astype(np.uint8 if hi < 2 ** 8 else np.uint16 if hi < 2 ** 16 else np.uint32 if hi < 2 ** 32 else np.uint64)
+    elif rep == "fortran":
+        return np.asfortranarray(A)
+    elif rep == "view":
+        big = np.full((2 * A.shape[0] + 1, 5), 777.25)
+        big[1::2, 1::3] = A
+        return big[1::2, 1::3]
+    elif rep == "readonly":
+        A.setflags(write=False)
+    return A
 
 
 def _max_matching_size(graph):
@@ -374,16 +583,73 @@ def _on_alarm(signum, frame):
     raise _CaseTimeout()
 
 
-def impl_run(cases):
-    import signal
+_RUN = {"monitor": {"calls": 0, "bad": None}, "timeouts": 0}
+
+
+def _reps(c):
+    r = c.get("rep", "array")
+    return c.get("repS", r), c.get("repT", r)
+
+
+def _one_call(c, memo):
+    """bottleneck(S, T) and bottleneck(S, T, matching=True) on the case's diagrams.  With a memo (call
+    histories) equal-valued diagrams in the same representation are the same objects in every call."""
+    import sys
     import warnings
     import numpy as np
+    bottleneck = sys.modules["persim.bottleneck"].bottleneck
+    monitor = _RUN["monitor"]
+    monitor["calls"], monitor["bad"] = 0, None
+    rS, rT = _reps(c)
+    if memo is None:
+        S, T = _arr(c["S"], rS), _arr(c["T"], rT)
+    else:
+        S = history.intern(memo, ["dgm", c["S"], rS], lambda: _arr(c["S"], rS))
+        T = history.intern(memo, ["dgm", c["T"], rT], lambda: _arr(c["T"], rT))
+    if c.get("fault"):      # a malformed argument; whatever happens, the later calls must be right
+        S = c["rawS"] if "rawS" in c else S
+        T = c["rawT"] if "rawT" in c else T
+    with warnings.catch_warnings(record=True) as w:
+        warnings.simplefilter("always")
+        d0 = bottleneck(S, T)
+        try:        # the second return value is C06's business; C01 observes d0 only
+            d1, rows = bottleneck(S, T, matching=True)
+            rows = [[float(x) for x in r] for r in np.asarray(rows, dtype=float).reshape(-1, 3)]
+            d1 = float(d1)
+        except Exception as e:  # noqa
+            d1, rows = None, {"error": type(e).__name__, "msg": str(e)[:200]}
+    msgs = [str(x.message) for x in w]
+    return {"dist": float(d0), "dist_m": d1, "rows": rows,
+            "warn1": any("dgm1" in m and "non-finite" in m for m in msgs),
+            "warn2": any("dgm2" in m and "non-finite" in m for m in msgs),
+            "hk_calls": monitor["calls"], "oracle_bad": monitor["bad"]}
+
+
+def impl_call(c, memo=None):
+    """One guarded call: exceptions and a search that does not terminate become error outputs."""
+    import signal
+    if _RUN["timeouts"] >= MAX_TIMEOUTS:
+        return {"error": "NotRun", "msg": "%d earlier cases of this batch timed out" % _RUN["timeouts"]}
+    signal.signal(signal.SIGALRM, _on_alarm)
+    signal.setitimer(signal.ITIMER_REAL, CASE_TIMEOUT_S)
+    try:
+        return _one_call(c, memo)
+    except _CaseTimeout:
+        _RUN["timeouts"] += 1
+        return {"error": "Timeout", "msg": "no result within %g s (the search loop did not terminate)" % CASE_TIMEOUT_S}
+    except Exception as e:  # noqa
+        return {"error": type(e).__name__, "msg": str(e)[:300]}
+    finally:
+        signal.setitimer(signal.ITIMER_REAL, 0)
+
+
+def impl_run(cases):
     import sys
     import persim  # noqa: F401
     pb = sys.modules["persim.bottleneck"]      # `persim.bottleneck` the attribute is the function
-    bottleneck = pb.bottleneck
     real_hk = pb.HopcroftKarp
-    monitor = {"calls": 0, "bad": None}
+    monitor = _RUN["monitor"]
+    _RUN["timeouts"] = 0
 
     class WatchedHK(object):
         def __init__(self, graph):
@@ -408,49 +674,17 @@ def impl_run(cases):
                 monitor["bad"] = "monitor raised %r" % (e,)
             return res
     pb.HopcroftKarp = WatchedHK
-    outs = []
-    n_timeouts = 0
     try:
-        for c in cases:
-            def call():
-                monitor["calls"], monitor["bad"] = 0, None
-                S, T = _arr(c["S"], c.get("rep", "array")), _arr(c["T"], c.get("rep", "array"))
-                with warnings.catch_warnings(record=True) as w:
-                    warnings.simplefilter("always")
-                    d0 = bottleneck(S, T)
-                    try:        # the second return value is C06's business; C01 observes d0 only
-                        d1, rows = bottleneck(S, T, matching=True)
-                        rows = [[float(x) for x in r] for r in np.asarray(rows, dtype=float).reshape(-1, 3)]
-                        d1 = float(d1)
-                    except Exception as e:  # noqa
-                        d1, rows = None, {"error": type(e).__name__, "msg": str(e)[:200]}
-                msgs = [str(x.message) for x in w]
-                return {"dist": float(d0), "dist_m": d1, "rows": rows,
-                        "warn1": any("dgm1" in m and "non-finite" in m for m in msgs),
-                        "warn2": any("dgm2" in m and "non-finite" in m for m in msgs),
-                        "hk_calls": monitor["calls"], "oracle_bad": monitor["bad"]}
-            if n_timeouts >= MAX_TIMEOUTS:
-                outs.append({"error": "NotRun", "msg": "%d earlier cases of this batch timed out" % n_timeouts})
-                continue
-            signal.signal(signal.SIGALRM, _on_alarm)
-            signal.setitimer(signal.ITIMER_REAL, CASE_TIMEOUT_S)
-            try:
-                outs.append(call())
-            except _CaseTimeout:
-                n_timeouts += 1
-                outs.append({"error": "Timeout", "msg": "no result within %g s (the search loop did not terminate)" % CASE_TIMEOUT_S})
-            except Exception as e:  # noqa
-                outs.append({"error": type(e).__name__, "msg": str(e)[:300]})
-            finally:
-                signal.setitimer(signal.ITIMER_REAL, 0)
+        return [history.run(c, impl_call) if history.is_hist(c) else impl_call(c) for c in cases]
     finally:
         pb.HopcroftKarp = real_hk
-    return outs
 
 
 # ------------------------------------------------------------------------------ the spec predicate
 
 def predicate(c, o):
+    if history.is_hist(c):
+        return history.predicate(c, o, predicate)
     if "error" in o:
         return False, "error: bottleneck raised %s: %s" % (o["error"], o.get("msg"))
     v = spec_value(c)
@@ -469,6 +703,8 @@ def predicate(c, o):
 
 
 def nontrivial(c, o):
+    if history.is_hist(c):
+        return history.nontrivial(c, o, nontrivial)
     if "error" in o:
         return False
     if not finite_points(c["S"]) or not finite_points(c["T"]) or _has_inf(c["S"]) or _has_inf(c["T"]):
@@ -627,10 +863,11 @@ def coq_jobs(cases, outs):
     return []
 
 
-def coq_judge(cases, outs, results):
-    verdicts = [None] * len(cases)
+def _judge_units(units):
+    """Verdicts for plain (case, out) pairs: the model is run inside Coq on each."""
+    verdicts = [None] * len(units)
     terms, idx = [], []
-    for i, (c, o) in enumerate(zip(cases, outs)):
+    for i, (c, o) in enumerate(units):
         if "error" in o:
             verdicts[i] = "disagree:implementation raised %s" % o["error"]
             continue
@@ -638,7 +875,7 @@ def coq_judge(cases, outs, results):
         if d != d or d in (float("inf"), float("-inf")):
             verdicts[i] = "disagree:implementation returned %r, the model a finite value" % d
             continue
-        key = (core.sha({k: v for k, v in c.items() if k not in ("_id", "cls")}), repr(d))
+        key = (core.sha({k: c[k] for k in ("S", "T", "family") if k in c}), repr(d))
         if key in _cache:
             verdicts[i] = _cache[key]
             continue
@@ -653,7 +890,7 @@ def coq_judge(cases, outs, results):
             if t == "Agree":
                 v = "agree"
             elif t == "Disagree":
-                v = "disagree:model value differs from the implementation's %r" % outs[i]["dist"]
+                v = "disagree:model value differs from the implementation's %r" % units[i][1]["dist"]
             elif t == "Inconclusive":
                 v = "skip:certificates rejected by the verified checkers"
             else:
@@ -663,13 +900,52 @@ def coq_judge(cases, outs, results):
     return verdicts
 
 
+def coq_judge(cases, outs, results):
+    """One verdict per case; a call history gets the worst verdict of its (non-fault) steps."""
+    units, owner = [], []
+    for i, (c, o) in enumerate(zip(cases, outs)):
+        if history.is_hist(c):
+            for u in history.flatten([c], [o]):
+                units.append(u)
+                owner.append(i)
+        else:
+            units.append((c, o))
+            owner.append(i)
+    uv = _judge_units(units)
+    per = {}
+    for i, v in zip(owner, uv):
+        per.setdefault(i, []).append(v)
+    verdicts = []
+    for i, c in enumerate(cases):
+        vs = per.get(i, [])
+        if not history.is_hist(c):
+            verdicts.append(vs[0])
+            continue
+        bad = [v for v in vs if v.startswith("disagree")] or [v for v in vs if v.startswith("skip")]
+        if not vs:
+            verdicts.append("disagree:history produced no step outputs")
+        elif bad:
+            verdicts.append(bad[0].replace(":", ":history step: ", 1))
+        else:
+            verdicts.append("agree")
+    return verdicts
+
+
 def shrink_candidates(c):
+    if history.is_hist(c):
+        yield from history.shrink(c)
+        return
     for side in ("S", "T"):
         P = c[side]
         for j in range(len(P)):
             d = dict(c)
             d[side] = P[:j] + P[j + 1:]
             yield d
+    # the plain representation: tells a value effect from a container / dtype / layout effect
+    if any(c.get(k, "array") != "array" for k in ("rep", "repS", "repT")):
+        d = {k: v for k, v in c.items() if k not in ("repS", "repT")}
+        d["rep"] = "array"
+        yield d
     for side in ("S", "T"):
         P = c[side]
         for j in range(len(P)):
